@@ -154,6 +154,8 @@ type Exec struct {
 	R *JobResult
 
 	nestDepth int
+	oneShotMs int
+	hardMemo  map[*Term]bool
 }
 
 type nondetRec struct {
@@ -347,7 +349,7 @@ func (e *Exec) ensureInit(pkg *ssa.Package) {
 	if initFn == nil || initFn.Blocks == nil {
 		return
 	}
-	e.callFunction(initFn, nil)
+	e.runBody(initFn, nil)
 }
 
 func (e *Exec) constVal(c *ssa.Const) Value {
@@ -420,6 +422,8 @@ func (e *Exec) callFunction(fnv Value, args []Value) Value {
 		fr = e.pushFrame(g, fn, args, nil, nil)
 	case *ClosureV:
 		fr = e.pushFrame(g, fn.fn, args, fn.free, nil)
+	case *ModelFn:
+		return fn.f(e, args)
 	case NilFunc:
 		e.runtimePanic("invalid memory address or nil pointer dereference (nil func call)")
 	default:
@@ -428,11 +432,24 @@ func (e *Exec) callFunction(fnv Value, args []Value) Value {
 	fr.boundary = true
 	e.nestDepth++
 	defer func() { e.nestDepth-- }()
-	res, pv := e.runUntil(g, base)
+	res, pv := e.runNested(g, base)
 	if pv != nil {
 		panic(pv)
 	}
 	return res
+}
+
+// runNested runs a nested call to completion; blocking inside it is not supported.
+func (e *Exec) runNested(g *Goroutine, base int) (res Value, pv *PanicV) {
+	defer func() {
+		if r := recover(); r != nil {
+			if b, ok := r.(blockReq); ok {
+				panic(pathEnd{"unsupported", "blocking operation (" + b.tag + ") inside a nested call" + e.where()})
+			}
+			panic(r)
+		}
+	}()
+	return e.runUntil(g, base)
 }
 
 // ---------- main loop ----------
@@ -570,6 +587,18 @@ func (e *Exec) dispatchCall(g *Goroutine, fnv Value, args []Value, retTo ssa.Val
 		return e.pushFrame(g, fn, args, nil, retTo)
 	case *ClosureV:
 		return e.pushFrame(g, fn.fn, args, fn.free, retTo)
+	case *ModelFn:
+		r := fn.f(e, args)
+		if retTo != nil {
+			e.set(g.stack[len(g.stack)-1], retTo, r)
+		}
+		return nil
+	case *ssa.Builtin:
+		r := e.builtin(g.stack[len(g.stack)-1], fn, args, nil)
+		if retTo != nil {
+			e.set(g.stack[len(g.stack)-1], retTo, r)
+		}
+		return nil
 	case NilFunc:
 		e.runtimePanic("invalid memory address or nil pointer dereference (nil func call)")
 	}
@@ -823,6 +852,13 @@ func (e *Exec) prepareCall(f *Frame, c *ssa.CallCommon) (Value, []Value) {
 		}
 		if iv.t == nil {
 			e.runtimePanic("invalid memory address or nil pointer dereference (method call on nil interface)")
+		}
+		if rt, ok := iv.v.(ReflT); ok {
+			args := make([]Value, 0, len(c.Args))
+			for _, a := range c.Args {
+				args = append(args, e.get(f, a))
+			}
+			return e.reflectMethod(rt, c.Method.Name()), args
 		}
 		args := make([]Value, 0, len(c.Args)+1)
 		args = append(args, iv.v)
